@@ -569,12 +569,10 @@ VARIANTS = [
             "    scheduled_rewrites.sort(\n        key=lambda tup: (\n            tup[1][0],  # Character numbers of rewrite, a core.Range type\n            core.unparse(tup[1][1].new) if tup[1][1].new else \"\",  # New code to be inserted or replaced\n            tup[0]  # Transaction number\n        ),\n        reverse=True,\n    )\n", "", None),
     Variant("join-over-text-set", "FIRE", "symbolic_math",
             "    expr = \" + \".join(core.unparse(node).strip() for node in values)", "    expr = \" + \".join({core.unparse(node).strip() for node in values})", "R6.3"),
-    Variant("join-over-import-name-set-is-sanitised", "SILENT", "fixes",
+    Variant("join-over-import-name-set", "FIRE", "fixes",
             "    names = \", \".join(\n        sorted(\n            alias.name if alias.asname is None else f\"{alias.name} as {alias.asname}\"\n            for alias in node.names\n            if (alias.name if alias.asname is None else alias.asname) not in unused_imports\n    ))",
-            "    names = \", \".join(\n        {\n            alias.name if alias.asname is None else f\"{alias.name} as {alias.asname}\"\n            for alias in node.names\n            if (alias.name if alias.asname is None else alias.asname) not in unused_imports\n    })"),
-    Variant("missing-imports-after-sort", "FIRE", "main",
-            "    if minimum_indent == 0:\n        source = fixes.add_missing_imports(source)\n        if not keep_imports:\n            source = fixes.remove_unused_imports(source, preserve=preserve)\n\n    source = fixes.sort_imports(source)\n",
-            "    source = fixes.sort_imports(source)\n\n    if minimum_indent == 0:\n        source = fixes.add_missing_imports(source)\n        if not keep_imports:\n            source = fixes.remove_unused_imports(source, preserve=preserve)\n", "R6.3"),
+            "    names = \", \".join(\n        {\n            alias.name if alias.asname is None else f\"{alias.name} as {alias.asname}\"\n            for alias in node.names\n            if (alias.name if alias.asname is None else alias.asname) not in unused_imports\n    })", "R6.3"),
+    Variant("invented-import-lines-inserted-in-set-order", "FIRE", "fixes", "    for package in sorted((constants.ASSUMED_PACKAGES | constants.PYTHON_311_STDLIB) & variables):", "    for package in (constants.ASSUMED_PACKAGES | constants.PYTHON_311_STDLIB) & variables:", "R6.3"),
     Variant("most-common-of-set", "FIRE", "processing",
             "            most_common_original_formatting = collections.Counter(\n                original_string_formattings[node.value]\n            ).most_common(1)[0][0]",
             "            most_common_original_formatting = collections.Counter(\n                set(original_string_formattings[node.value])\n            ).most_common(1)[0][0]", "R6.3"),
